@@ -98,4 +98,15 @@ META = {
         note=BASE_NOTE + "Modelled not verified: gRPC interceptor chaining, string prefix/suffix functions (executable, compared per method).",
         technique="Lean 4 decision-logic theorems + end-to-end model/implementation correspondence over TCP and mux",
     ),
+    "C12": dict(
+        text="Generic theorem (induction over structural paths of ANY length/nesting): if the finite coverage obligations hold for a type graph and the code's "
+             "tables, the visitor translates the namespace name at the end of every well-formed path - through repeated fields, maps, oneofs, failure chains, "
+             "links and serialized history-event blobs - and the skip shortcut never changes the result. The obligations are re-established on every run, by "
+             "kernel evaluation, for facts REGENERATED from the source (981 struct types reachable from all 308 request/response types, tables read from the "
+             "running code): so a new message type/field, a renamed Go field, an unrecognised event blob or a skippable event that can reach a namespace "
+             "breaks a proof obligation. Correspondence on real messages built along every kind of path + independent reference translation as monitor.",
+        design_ref="DESIGN.md §5 C12",
+        note=BASE_NOTE + "Trusted additionally: the translator go/eng/typegraph_test.go (reflection over the pinned generated structs; oracle from proto tags; reviewed non-event blob list). Modelled not verified: visit.Values' universal descent, protobuf codecs, the event serializer.",
+        technique="Lean 4 generic path theorem + regenerated finite obligations (decide +kernel) + model/implementation correspondence",
+    ),
 }
